@@ -92,7 +92,18 @@ def generate(rng, tier):
                 for actor in actors:
                     if actor["ops"] and actor["ops"][-1]["op"] == "raise":
                         actor["ops"][-1]["chained"] = True
-            if rng.random() < 0.3:
+            if rng.random() < 0.2:
+                # the only failure of the run is a privileged one (an assertion of the model, a
+                # sys.exit() or Ctrl-C inside an activity): run() raises exactly that object
+                failing = [a for a in actors if a["ops"] and a["ops"][-1]["op"] == "raise"]
+                for other in failing[1:]:
+                    other["ops"].pop()
+                failing[0]["ops"][-1]["type"] = rng.choice(
+                    ["assert", "exit", "kbd", "assert_sub", "exit_sub", "kbd_sub", "assert_z"])
+                # (with `till` the context of a privileged exception is replaced by the scope's
+                # internal signal - cosmetic, DESIGN 7(f) - so no context is set up for these)
+                failing[0]["ops"][-1].pop("chained", None)
+            elif rng.random() < 0.3:
                 # the failure escapes its root as a Concurrent: it is that of a child in a scope
                 # of the root (run() has to re-raise the Concurrent, not its content)
                 failing = [a for a in actors if a["ops"] and a["ops"][-1]["op"] == "raise"]
